@@ -286,6 +286,8 @@ class _Exporter:
         self.inline_const = inline_const
         self.constants: dict[str, str] = {}
         self._attr_renaming: dict[str, str | None] = {}  # For current function.
+        # (domain, name) of the model-local functions of the model being exported.
+        self._local_functions: set[tuple[str, str]] = set()
         self._names_used: set[str] = set()  # For current function.
         # _name_remappings: used to undo the SSA-renaming in ONNX control-flow ops.
         # We map the multiple SSA-variants back to the same Python variable name.
@@ -646,9 +648,14 @@ class _Exporter:
                 f"{sindent}{self._translate_onnx_var(node.output[0])} = "
                 f"{(f' {ops[node.op_type]} ').join(map(operand, node.input))}"
             )
-        callee_name = self._make_callee_name(
-            node.domain, opsets[node.domain], node.op_type, node=True
-        )
+        if (node.domain, node.op_type) in self._local_functions:
+            # A call to a model-local function: call the script function generated for it
+            # (an attribute of the Opset object would denote an op without a definition).
+            callee_name = self._make_callee_name(node.domain, 1, node.op_type)
+        else:
+            callee_name = self._make_callee_name(
+                node.domain, opsets[node.domain], node.op_type, node=True
+            )
         attributes_str = self._translate_attributes(node)
         if len(node.input) > 0 and len(attributes_str) > 0:
             attributes_str = f", {attributes_str}"
@@ -886,6 +893,7 @@ def make_model_with_random_weights():
         add(self._import_onnx_types(proto))
 
         if isinstance(proto, ModelProto):
+            self._local_functions = {(f.domain, f.name) for f in proto.functions}
             translated_functions = [self._translate_function(f) for f in proto.functions]
             translated_functions.append(self._translate_graph(proto, function_name))
         else:
